@@ -98,10 +98,12 @@ Definition cmd_in_range (c : cmd) : bool :=
   | CFwVersionCheck v cid => u32b v && (cid <? 6)
   | CReset => true
   end.
-(* commands the property quantifies over: fields in range, data made of bytes, fuse data made of whole 32-bit words *)
-Definition wf_cmdb (c : cmd) : bool :=
-  cmd_in_range c && wf_bytesb (cmd_data c) &&
+(* the constructor accepts the arguments: CmdProgFuses.__init__ raises SPSDKError unless the data is whole 32-bit words *)
+Definition cmd_constructible (c : cmd) : bool :=
   match c with CProgFuses _ d => nlen d mod 4 =? 0 | _ => true end.
+(* commands the property quantifies over: constructible, fields in range, data made of bytes *)
+Definition wf_cmdb (c : cmd) : bool :=
+  cmd_in_range c && wf_bytesb (cmd_data c) && cmd_constructible c.
 Definition wf_cmd (c : cmd) : Prop := wf_cmdb c = true.
 
 (* ---- spsdk.sbfile.sb31.commands.parse_command (faithful: which fields are read, which checks exist, which exception) ---- *)
@@ -126,7 +128,8 @@ Definition parse_body (f1b : list N) (f2 t : N) (body : list N) : res cmd :=
   else if t =? 2 then load CLoad
   else if t =? 3 then Ok (CExecute f1)
   else if t =? 4 then Ok (CCall f1)
-  else if t =? 5 then Ok (CProgFuses f1 (take_n (4 * f2) body))
+  else if t =? 5 then                                               (* cls(address, data): the constructor checks the length *)
+    (let d := take_n (4 * f2) body in if nlen d mod 4 =? 0 then Ok (CProgFuses f1 d) else Err 1)
   else if t =? 6 then Ok (CProgIfr f1 (take_n f2 body))
   else if t =? 7 then load CLoadCmac
   else if t =? 8 then (if negb ext then Err 2 else if negb (e3 =? 0) then Err 1 else Ok (CCopy f1 f2 e0 e1 e2))
@@ -468,7 +471,7 @@ Definition value_of_out (o : rom_out) : value :=
          vn (o_total_len o); VList (map value_of_cmd (o_cmds o)); vnat (length (o_signed o)); VBytes (o_cert o); VBytes (o_sig o)].
 
 (* run_case:
-   1 [cmd]                         export of one command
+   1 [cmd]                         construction and export of one command
    2 [bytes]                       parse_command
    3 [cmds]                        get_cmd_blocks_to_export (list of 256-byte chunks)
    4 [sha384; enc; pck; rights; ts; fw; flags; nxp; descr; cmds; cert; cert_expected; sigs]
@@ -478,12 +481,14 @@ Definition value_of_out (o : rom_out) : value :=
 Definition run_case (fn : Z) (args : list value) : value :=
   match fn, args with
   | 1%Z, [v] => match cmd_of_value v with
-                | Some c => if cmd_in_range c then VBytes (export_cmd c) else VErr 2
+                | Some c => if negb (cmd_constructible c) then VErr 1
+                            else if cmd_in_range c then VBytes (export_cmd c) else VErr 2
                 | None => VErr E_BADCASE
                 end
   | 2%Z, [VBytes d] => vres value_of_cmd (parse_command d)
   | 3%Z, [VList cs] => match cmds_of_values cs with
-                       | Some cmds => if forallb cmd_in_range cmds then VList (map VBytes (data_chunks (sb_stream cmds)))
+                       | Some cmds => if negb (forallb cmd_constructible cmds) then VErr 1
+                                      else if forallb cmd_in_range cmds then VList (map VBytes (data_chunks (sb_stream cmds)))
                                       else VErr 2
                        | None => VErr E_BADCASE
                        end
@@ -494,7 +499,8 @@ Definition run_case (fn : Z) (args : list value) : value :=
           let x := mk_input (zb enc) pck (zN rights) (zN ts) (zN fw) (zN flags) (zb nxp) descr cmds cert (zN cexp) in
           match construct_check x with
           | Err k => VErr k
-          | Ok _ => match exports_c (zb b384) (init_state_c (zb b384)) x sgs with
+          | Ok _ => if negb (forallb cmd_constructible cmds) then VErr 1 else       (* add_command(Cmd...(...)) *)
+                    match exports_c (zb b384) (init_state_c (zb b384)) x sgs with
                     | Ok (_, fs) => VList (map VBytes fs)
                     | Err k => VErr k
                     end
